@@ -49,10 +49,10 @@ def same_list(o, rnd, xs):
     """the caller's ONE list object, edited in place to hold `xs` and passed again (lengths permitting) — what a call means is
     what the list holds now, never which object it is; otherwise any iterable form"""
     sh = getattr(o, "shared", None)
-    if sh is not None and len(sh) == len(xs) and xs and rnd.random() < 0.5:
+    if sh is not None and len(sh) == len(xs) and xs and rnd.random() < 0.8:
         sh[:] = list(xs)
         return sh
-    if rnd.random() < 0.3:
+    if rnd.random() < 0.5:
         o.shared = list(xs)
         return o.shared
     return as_iterable(rnd, xs)
